@@ -53,6 +53,12 @@ class Ellipsoid(CenteredScatterer):
                    "r should be specified as (r_x, r_y, r_z)".format(center))
             raise InvalidScatterer(self, msg)
         self.r = r
+        try:
+            if np.any(np.array(self.r) < 0):
+                raise InvalidScatterer(self, "radius is negative")
+        except TypeError:
+            # radii given as priors are not checked (as in Sphere)
+            pass
         if np.isscalar(rotation) or len(rotation) != 3:
             msg = ("rotation specified as {0}; rotation should be "
                    "specified as (alpha, beta, gamma)".format(rotation))
